@@ -18,27 +18,6 @@ func verifStubDoEcDh(pri []byte, pub *cryptoutils.EcPoint, ec elliptic.Curve) *c
 	return &cryptoutils.EcPoint{X: new(big.Int).SetBytes(verifSharedX), Y: new(big.Int).SetBytes([]byte{1})}
 }
 
-func verifRefKDF(secret []byte, counter byte, aes bool, bits int) []byte {
-	d := append(append([]byte(nil), secret...), 0, 0, 0, counter)
-	if !aes {
-		h := verifHash("sha1", d)[0:16]
-		out := make([]byte, 16)
-		for i := range h {
-			b := h[i]
-			ones := (b>>7)&1 + (b>>6)&1 + (b>>5)&1 + (b>>4)&1 + (b>>3)&1 + (b>>2)&1 + (b>>1)&1
-			out[i] = (b & 0xfe) | (1 - ones&1)
-		}
-		return out
-	}
-	switch bits {
-	case 128:
-		return verifHash("sha1", d)[0:16]
-	case 192:
-		return verifHash("sha256", d)[0:24]
-	}
-	return verifHash("sha256", d)
-}
-
 func verifH_C06_secret() {
 	n := verifParam("fieldbytes")
 	verifSharedX = verifBytes(n)
